@@ -84,9 +84,10 @@ PROP = {
              bound="badness in [0, 10000], penalty < 10000 (a feasible breakpoint), |line_penalty| <= 2^20, demerit parameters |x| <= 2^28: TeX.2021.859"),
         c04_pass.obligation("R"),
         c04_pass.obligation("RGR"),
-        dict(c04_pass.obligation("RPR"), tier="thorough"),
-        dict(c04_pass.obligation("RKGR"), tier="thorough"),
-        dict(c04_pass.obligation("RGGR"), tier="thorough"),
+        c04_pass.obligation("RPR"),
+        c04_pass.obligation("RKGR"),
+        c04_pass.obligation("RGGR"),
         dict(c04_pass.obligation("RPGR"), tier="thorough"),
+        dict(c04_pass.obligation("RkGR"), tier="thorough"),
     ],
 }
